@@ -303,8 +303,8 @@ class MQTTProtocol(MQTTBaseProtocol):
                 return
             log.debug("<== {packet:7} (id={response.msgId:04x})", packet="PUBACK", response=response)
             request.alarm.cancel()
-            request.deferred.callback(request.msgId)
             del self.factory.windowPublish[self.addr][response.msgId]
+            request.deferred.callback(request.msgId)
             self._refillPublish(dup=False)
 
     # --------------------------------------------------------------------------
@@ -349,8 +349,8 @@ class MQTTProtocol(MQTTBaseProtocol):
         else: 
             log.debug("<== {packet:7} (id={response.msgId:04x})", packet="PUBCOMP", response=response)
             reply.alarm.cancel()
-            reply.deferred.callback(reply.msgId)
             del self.factory.windowPubRelease[self.addr][reply.msgId]
+            reply.deferred.callback(reply.msgId)
             self._refillPublish(dup=False)
 
 
@@ -559,6 +559,8 @@ class MQTTProtocol(MQTTBaseProtocol):
         '''
         Refills the Publisher transmission window from the queue 
         '''
+        if self.state is not self.CONNECTING and self.state is not self.CONNECTED:
+            return  # e.g. the application has disconnected from inside a callback
         cnx = self.addr
         queue  = self.factory.queuePublishTx[cnx]
         window = self.factory.windowPublish[cnx]
